@@ -57,7 +57,21 @@ pub struct Diag {
     pub panic: Option<String>,
 }
 
+pub static T_DIAG_MS: std::sync::atomic::AtomicU64 = std::sync::atomic::AtomicU64::new(0);
+pub static T_BUILD_MS: std::sync::atomic::AtomicU64 = std::sync::atomic::AtomicU64::new(0);
+pub static T_RUN_MS: std::sync::atomic::AtomicU64 = std::sync::atomic::AtomicU64::new(0);
+pub static T_SLOWEST_DIAG_MS: std::sync::atomic::AtomicU64 = std::sync::atomic::AtomicU64::new(0);
+
 pub fn diagnostics(src: &str) -> Diag {
+    with_fastc(400, |_| ());
+    let t0 = std::time::Instant::now();
+    let d = diagnostics_inner(src);
+    let ms = t0.elapsed().as_millis() as u64;
+    T_DIAG_MS.fetch_add(ms, std::sync::atomic::Ordering::Relaxed);
+    T_SLOWEST_DIAG_MS.fetch_max(ms, std::sync::atomic::Ordering::Relaxed);
+    d
+}
+fn diagnostics_inner(src: &str) -> Diag {
     let mut d = Diag::default();
     let r = crate::watch::watched(src, || with_fastc(400, |fc| catch(|| fc.to_ast(src, OptLevel::Opt0))));
     let (_progs, handler, _) = match r {
@@ -268,14 +282,17 @@ pub fn eval_case(tape: &[u16], rep: &Report, run_time: bool) -> Result<Option<Ca
             (&em2, &arms2, &t2)
         };
         let mut codes = vec![];
+        let tb = std::time::Instant::now();
         for (lvl, opt) in [("O0", OptLevel::Opt0), ("O1", OptLevel::Opt1)] {
             match crate::watch::watched(&emr.src, || with_fastc(400, |fc| catch(|| fc.compile(&emr.src, opt)))) {
                 Ok(Ok(cd)) => codes.push((lvl, cd.bytecode)),
                 Ok(Err(f)) => {
                     if f.internal && f.stage != "ast" {
-                        // an internal error of IR generation / optimisation / code generation is C17's subject, not the match analysis'
+                        // an internal error of IR generation / optimisation / code generation is C17's subject, not the match analysis':
+                        // the case counts with its diagnostics half only
                         rep.class("backend_internal_error(C17)");
-                        return Ok(None);
+                        codes.clear();
+                        break;
                     }
                     if f.internal {
                         return Err(mk(&format!("internal-error:{}", mask_digits(f.errors.first().map(|s| s.as_str()).unwrap_or(""))), format!("{lvl} build fails with an internal error: {:?}", f.errors.first()), json!({"src": emr.src})));
@@ -296,6 +313,9 @@ pub fn eval_case(tape: &[u16], rep: &Report, run_time: bool) -> Result<Option<Ca
                 Err(p) => return Err(mk(&format!("compiler-panic:{}", mask_digits(&format!("{} :: {}", p.location, p.message))), format!("{lvl} build panicked: {} {}", p.location, p.message), json!({"src": emr.src}))),
             }
         }
+        T_BUILD_MS.fetch_add(tb.elapsed().as_millis() as u64, std::sync::atomic::Ordering::Relaxed);
+        let tr0 = std::time::Instant::now();
+        let _timer = Timer(tr0);
         for vi in pick_values(tr) {
             let v = &tr.values[vi];
             let Some(exp) = expected_result(&c, emr, armsr, v) else { continue };
@@ -324,6 +344,13 @@ pub fn eval_case(tape: &[u16], rep: &Report, run_time: bool) -> Result<Option<Ca
     Ok(Some(CaseStats { nontrivial: c.arms.len() >= 3 && nested_or_or, exhaustive, unreachable, runs, witnesses: nw, witnesses_exact: nexact }))
 }
 
+struct Timer(std::time::Instant);
+impl Drop for Timer {
+    fn drop(&mut self) {
+        T_RUN_MS.fetch_add(self.0.elapsed().as_millis() as u64, std::sync::atomic::Ordering::Relaxed);
+    }
+}
+
 fn tape_hash(tape: &[u16]) -> u64 {
     hash64(&tape.iter().flat_map(|x| x.to_be_bytes()).collect::<Vec<u8>>())
 }
@@ -350,7 +377,7 @@ pub fn run(ctx: &Ctx) {
     rep.assume("a non-exhaustive match cannot be executed; its run-time half is checked on the same arms followed by a final `_` arm");
     rep.assume("a compilation that does not terminate within 120 s ends the check as inconclusive (exit 2), not as a violation");
     crate::watch::spawn_watchdog("C14", 120);
-    let cases = ctx.cases(6000, 120_000);
+    let cases = ctx.cases(2000, 40_000);
     let rt_every: u64 = 4;
     let out = run_prop(ctx, 14, cases, tape_strategy, |tape| {
         let h = tape_hash(tape);
@@ -389,6 +416,10 @@ pub fn run(ctx: &Ctx) {
             _ => json!({"tape": tape}),
         };
         rep.violation(Violation { signature: sig, summary, replay });
+    }
+    {
+        use std::sync::atomic::Ordering::Relaxed;
+        rep.set_extra("cpu_ms_by_phase", json!({"diagnostics": T_DIAG_MS.load(Relaxed), "builds_O0_O1": T_BUILD_MS.load(Relaxed), "vm_runs": T_RUN_MS.load(Relaxed), "slowest_diagnostics": T_SLOWEST_DIAG_MS.load(Relaxed)}));
     }
     let ev = rep.evaluations.load(std::sync::atomic::Ordering::Relaxed).max(1);
     if rep.class_count("generator_rejected") * 10 > ev {
